@@ -512,6 +512,12 @@ void Node::schedule_assigned_fetch(const protocol::AnnouncePayload& payload) {
         state.attempts = 0;
     }
 
+    if (!inserted && state.in_flight) {
+        // The outstanding request is superseded by this announce: give the slot back to the
+        // provider it was sent to before the state is reset (and possibly re-targeted).
+        note_dispatch_end(state);
+    }
+
     state.peer_id = payload.peer_id;
     if (!payload.endpoint.empty()) {
         state.endpoint = payload.endpoint;
